@@ -100,12 +100,25 @@ fn kind_of(s: &str) -> ErrorKind {
 
 /// Install a hook that acts at the `occurrence`-th (0-based) operation with this verb and path.
 pub fn install_hook(fire: Option<(String, String, u64)>, what: &str, log: Arc<Mutex<Vec<(String, String)>>>) {
+    install_hook_root(fire, what, log, None)
+}
+
+/// As `install_hook`; with `root` set, a write whose target already exists non-empty is logged as verb "rewrite".
+pub fn install_hook_root(fire: Option<(String, String, u64)>, what: &str, log: Arc<Mutex<Vec<(String, String)>>>, root: Option<std::path::PathBuf>) {
     let seen = Arc::new(AtomicUsize::new(0));
     let what = what.to_string();
     verif_hook::set_callback(Some(Arc::new(move |verb: &str, path: &str, _content: Option<&[u8]>| {
         log.lock().unwrap().push((verb.to_string(), path.to_string()));
+        if verb == "write" {
+            if let Some(root) = &root {
+                if std::fs::metadata(root.join(path)).map(|m| m.len() > 0).unwrap_or(false) {
+                    log.lock().unwrap().push(("rewrite".to_string(), path.to_string()));
+                }
+            }
+        }
         if let Some((fv, fp, occ)) = &fire {
-            if verb == fv && path == fp {
+            let path_matches = if let Some(prefix) = fp.strip_suffix('*') { path.starts_with(prefix) } else { path == fp };
+            if verb == fv && path_matches {
                 let n = seen.fetch_add(1, Ordering::SeqCst) as u64;
                 if n == *occ {
                     return match what.as_str() {
